@@ -22,6 +22,7 @@ var droppedPrefixes = []string{
 	"context.", "github.com/sirupsen/logrus.",
 	"sync.(*WaitGroup).", "sync.(*Once).",
 	"go.opentelemetry.io/collector/pdata/", ".error.Error", "error.Error",
+	"route.(*iopLogger).", "types.RouterType.String", "types.TransmitType.String",
 }
 
 func (eng *Engine) isDropped(ref string, fn *types.Func) bool {
